@@ -52,11 +52,10 @@ size_t      g_canon_calls;
 int         g_hdr_err;   /* first non-zero result of the header store */
 
 /* ---- strings ----------------------------------------------------------- */
-/* p is a C string of exactly len bytes (len <= cap) whose terminator is the
- * LAST byte of its object, so that any read past the terminator is out of
- * bounds */
+/* p is a C string of exactly len bytes (len <= cap) at the start of an
+ * object of cap + 1 bytes; the bytes after the terminator are arbitrary */
 #define STR_EXACT(p, len, cap, v)                                           \
-	((len) <= (cap) && __CPROVER_is_fresh((p), (len) + 1) &&            \
+	((len) <= (cap) && __CPROVER_is_fresh((p), (cap) + 1) &&            \
 	    ((char *) (p))[(len)] == 0 &&                                   \
 	    __CPROVER_forall { size_t v; (v < (cap)) ==> ((v < (len)) ==> ((char *) (p))[v] != 0) })
 /* first occurrence of byte ch in p[from..len) is at idx (idx == len: none) */
